@@ -74,6 +74,61 @@ func c20Classify(b []byte) (string, string) {
 			return "not-sign1", "payload map has a label that is neither an integer nor a text string: " + icbor.Diag(pr[0])
 		}
 	}
+	// ... and it is DECODABLE as the claims of the stock profile it declares:
+	// no claim of that profile carries an item of a plainly different kind
+	// (an integer where text or bytes belong, text where a number belongs, a
+	// map anywhere). Nulls, simple values, arrays and tagged items under
+	// claim labels are C04's known findings / carve-outs: no verdict from them.
+	declared := ""
+	dup := map[int64]int{}
+	for _, pr := range p.Pairs {
+		if k, ok := pr[0].Int(); ok {
+			dup[k]++
+			if (k == 265 || k == -75000) && pr[1].Kind == icbor.KText {
+				if declared != "" && declared != string(pr[1].B) {
+					return "sign1", ""
+				}
+				declared = string(pr[1].B)
+			}
+		}
+	}
+	want := map[int64]string{}
+	switch declared {
+	case P2Name:
+		want = map[int64]string{2394: "int", 2395: "int", 2396: "bytes", 2397: "bytes", 256: "bytes", 10: "bytes", 2398: "text", 2400: "text", 2399: "array"}
+	case "", P1Name:
+		if declared == "" {
+			// profile 1 by default - unless the map is not a profile-1 token at all
+			has := false
+			for k := range dup {
+				has = has || (k <= -75001 && k >= -75010)
+			}
+			if !has {
+				return "sign1", ""
+			}
+		}
+		want = map[int64]string{-75001: "int", -75002: "int", -75003: "bytes", -75004: "bytes", -75009: "bytes", -75008: "bytes", -75005: "text", -75010: "text", -75006: "array", -75007: "int"}
+	}
+	for _, pr := range p.Pairs {
+		k, ok := pr[0].Int()
+		if !ok || want[k] == "" || dup[k] != 1 {
+			continue
+		}
+		got := ""
+		switch pr[1].Kind {
+		case icbor.KUint, icbor.KNint:
+			got = "int"
+		case icbor.KBytes:
+			got = "bytes"
+		case icbor.KText:
+			got = "text"
+		case icbor.KMap:
+			got = "map"
+		}
+		if got != "" && got != want[k] && !pr[1].Indef {
+			return "not-sign1", fmt.Sprintf("payload is not a decodable claims map of %q: claim %d carries %s where the profile has %s", declared, k, icbor.Diag(pr[1]), want[k])
+		}
+	}
 	return "sign1", ""
 }
 
@@ -250,7 +305,7 @@ func c20Replacements() []struct {
 }
 
 func TestC20_EnvelopeGrid(t *testing.T) {
-	st := NewStats("C20", "TestC20_EnvelopeGrid", "enumeration with the independent encoder around correctly signed material (7 algorithms in thorough, EdDSA+ES256 in quick; both profiles): tag in {none, 0..30, 61, 98, 18 nested twice} x array length 0..6; each of the four elements replaced by 20 other CBOR items and by indefinite-length / over-long-head forms; 2-element replacement pairs; 18 payload variants (raw map, double-wrapped, null, h'', h'f6', h'f7', array, int, text, tagged map, map+trailing, two maps, truncated map, ...) plus 19 tag numbers of every head width (incl. numbers whose last byte looks like a map head) x 8 tagged contents (null, undefined, array, int, bstr, text, map, tagged null); payload contents that are not well-formed CBOR (heads with the reserved additional-information values 28..31 of every major type, alone / followed by bytes / behind tags; heads cut off inside their argument); 0..3 trailing bytes; correct envelopes of exactly 2^12, 2^16, 2^20 (+-1) bytes alone and with trailing bytes; well-formed messages of the other COSE kinds around the same material (COSE_Sign with 0/1/2 signers incl. a correctly computed one, Mac0, Mac, Encrypt0, Encrypt, Sign1 with a counter-signature element) under 8 tags; the correct envelope in 13 text transport encodings (base64 in four alphabets, hex, data URI, base32, diagnostic notation, ...); 14 content-type / typ header values in either bucket x 6 payloads (claims as JSON text, '{}', 'null', base64 / hex of the claims, the claims map) each correctly signed; non-minimal tag/array heads; the TF-M Mac0 and Sign1 vectors and their tag-swapped variants; correct envelopes whose payload declares a registered extension profile whose own decoder panics for some values of its claim (a fault inside the claims-decoding stage: whatever becomes of the panic, the decode must not report success). Every envelope is also given to Evidence objects with a past (decoded a good token / had claims attached / signed, possibly followed by a failed decode of garbage, a Mac0, a truncated token, a non-map payload), which must agree with a fresh decode. Every judgement must come back within 20 s (twice), else the decode is reported as never returning. Oracle: DecodeEvidenceFromCOSE / UnmarshalCOSE success implies the independent classifier sees tag 18, 4-array, bstr, map, bstr holding exactly one map item, non-empty bstr, no trailing bytes. Non-trivial = still parses as CBOR and differs from a valid envelope in exactly one structural respect; distinct = grid cell")
+	st := NewStats("C20", "TestC20_EnvelopeGrid", "enumeration with the independent encoder around correctly signed material (7 algorithms in thorough, EdDSA+ES256 in quick; both profiles): tag in {none, 0..30, 61, 98, 18 nested twice} x array length 0..6; each of the four elements replaced by 20 other CBOR items and by indefinite-length / over-long-head forms; 2-element replacement pairs; 18 payload variants (raw map, double-wrapped, null, h'', h'f6', h'f7', array, int, text, tagged map, map+trailing, two maps, truncated map, ...; claims maps of either stock profile in which one claim, or an optional claim and another one in either order, carry an item of a plainly different kind) plus 19 tag numbers of every head width (incl. numbers whose last byte looks like a map head) x 8 tagged contents (null, undefined, array, int, bstr, text, map, tagged null); payload contents that are not well-formed CBOR (heads with the reserved additional-information values 28..31 of every major type, alone / followed by bytes / behind tags; heads cut off inside their argument); 0..3 trailing bytes; correct envelopes of exactly 2^12, 2^16, 2^20 (+-1) bytes alone and with trailing bytes; well-formed messages of the other COSE kinds around the same material (COSE_Sign with 0/1/2 signers incl. a correctly computed one, Mac0, Mac, Encrypt0, Encrypt, Sign1 with a counter-signature element) under 8 tags; the correct envelope in 13 text transport encodings (base64 in four alphabets, hex, data URI, base32, diagnostic notation, ...); 14 content-type / typ header values in either bucket x 6 payloads (claims as JSON text, '{}', 'null', base64 / hex of the claims, the claims map) each correctly signed; non-minimal tag/array heads; the TF-M Mac0 and Sign1 vectors and their tag-swapped variants; correct envelopes whose payload declares a registered extension profile whose own decoder panics for some values of its claim (a fault inside the claims-decoding stage: whatever becomes of the panic, the decode must not report success). Every envelope is also given to Evidence objects with a past (decoded a good token / had claims attached / signed, possibly followed by a failed decode of garbage, a Mac0, a truncated token, a non-map payload), which must agree with a fresh decode. Every judgement must come back within 20 s (twice), else the decode is reported as never returning. Oracle: DecodeEvidenceFromCOSE / UnmarshalCOSE success implies the independent classifier sees tag 18, 4-array, bstr, map, bstr holding exactly one map item in which no claim of the declared stock profile carries an item of a plainly different kind (integer / text / bytes / map mixed up), non-empty bstr, no trailing bytes. Non-trivial = still parses as CBOR and differs from a valid envelope in exactly one structural respect; distinct = grid cell")
 	st.Exhaustive = true
 	st.Require = []string{"accepted", "rejected", "tag", "arity", "element", "payload", "trailing", "vector", "transcoded", "header-x-payload", "cose-kind", "size", "decoder-fault"}
 	defer st.Flush(t)
@@ -495,6 +550,67 @@ func TestC20_EnvelopeGrid(t *testing.T) {
 					name string
 					raw  *icbor.Node
 				}{fmt.Sprintf("bstr-cut-head-%x", cut), icbor.Bstr(cut)})
+			}
+			// payloads that ARE maps but not decodable claims maps: claims of
+			// the declared profile carrying items of a plainly different kind -
+			// one claim, and two of them in either order (an optional one
+			// before / after another one; a typed decoder reports only the
+			// first mismatch it meets)
+			for _, cp := range []Prof{P1, P2} {
+				wrongFor := func(k int64) *icbor.Node {
+					switch k {
+					case 2394, 2395, -75001, -75002, -75007:
+						return icbor.Tstr("text")
+					case 2398, 2400, -75005, -75010:
+						return icbor.U(5)
+					case 2399, -75006:
+						return icbor.Tstr("components")
+					}
+					return icbor.U(7) // the byte-string claims
+				}
+				opt := []int64{2397, 2398, 2400}
+				other := []int64{2394, 2395, 2396, 256, 10, 2399, 2398}
+				if cp == P1 {
+					opt = []int64{-75005, -75010, -75006}
+					other = []int64{-75001, -75002, -75003, -75004, -75008, -75009, -75010}
+				}
+				mk := func(first, second int64) []byte {
+					bm := baseValid(cp, 1)
+					var front, rest [][2]*icbor.Node
+					for _, pr := range bm.WirePairs() {
+						k, _ := pr[0].Int()
+						switch {
+						case k == 265 || k == -75000:
+							front = append([][2]*icbor.Node{pr}, front...)
+						case k == first || k == second:
+						default:
+							rest = append(rest, pr)
+						}
+					}
+					front = append(front, icbor.P(icbor.I(first), wrongFor(first)))
+					if second != 0 {
+						front = append(front, icbor.P(icbor.I(second), wrongFor(second)))
+					}
+					return icbor.Encode(icbor.Map(append(front, rest...)...))
+				}
+				for _, o := range opt {
+					pv = append(pv, struct {
+						name string
+						raw  *icbor.Node
+					}{fmt.Sprintf("bstr-%s-claims-with-wrong-kind-under-%d", cp, o), icbor.Bstr(mk(o, 0))})
+					for _, x := range other {
+						if x == o {
+							continue
+						}
+						pv = append(pv, struct {
+							name string
+							raw  *icbor.Node
+						}{fmt.Sprintf("bstr-%s-claims-with-wrong-kinds-under-%d-then-%d", cp, o, x), icbor.Bstr(mk(o, x))}, struct {
+							name string
+							raw  *icbor.Node
+						}{fmt.Sprintf("bstr-%s-claims-with-wrong-kinds-under-%d-then-%d", cp, x, o), icbor.Bstr(mk(x, o))})
+					}
+				}
 			}
 			for _, v := range pv {
 				e := elems()
